@@ -1232,9 +1232,21 @@ impl<'a> TransactionRebase<'a> {
                     mem_wal_to_merge, ..
                 } => {
                     if mem_wal_to_merge.is_some() {
-                        // TODO: This check could be more detailed, there is an assumption that
-                        //  once a MemWAL is sealed, there is no other operation that could change
-                        //  the state back to open, and at that point it can always be flushed.
+                        // The committed job has marked this MemWAL as merged. A job that was
+                        // built before that must not write the same MemWAL back from its stale
+                        // copy (it would move the state back), nor add it again.
+                        self.check_update_mem_wal_state_not_modify_same_mem_wal(
+                            mem_wal_to_merge.as_slice(),
+                            added,
+                            other_transaction,
+                            other_version,
+                        )?;
+                        self.check_update_mem_wal_state_not_modify_same_mem_wal(
+                            mem_wal_to_merge.as_slice(),
+                            updated,
+                            other_transaction,
+                            other_version,
+                        )?;
                         Ok(())
                     } else {
                         Err(self.incompatible_conflict_err(
